@@ -89,7 +89,10 @@ def run(ctx: Ctx, tier: str) -> Result:
                 want = None
             return lambda got: got[0] == "return" and got[1] == want
         table_rule(res, "C19.CHAIN", tb, rv, ref, "code value > deep.config default > DEEP_<KEY> environment > None")
-        if ENV.startswith("os.getenv('DEEP_%s' % " + N):
+        from .common import fmt_parts
+        env_nodes = [c for r in tb.rows for c0, _ in r.conds for c in ast.walk(c0) if isinstance(c, ast.Call) and norm(c.func) == "os.getenv"]
+        fp = fmt_parts(env_nodes[0].args[0]) if env_nodes and env_nodes[0].args else None
+        if fp is not None and fp[0] == "DEEP_{}" and fp[1] == [N]:
             res.ok("C19.CHAIN", {"environment variable": ENV})
         else:
             res.fail(Finding("C19.CHAIN", ga.qname, ENV, ga.loc(), "the environment fallback does not read DEEP_<KEY>: %s" % ENV))
@@ -222,6 +225,15 @@ def run(ctx: Ctx, tier: str) -> Result:
         absent = any(isinstance(c, ast.Compare) and norm(c.left) == "'APP_ROOT'" and ((isinstance(c.ops[0], ast.NotIn) and pol) or (isinstance(c.ops[0], ast.In) and not pol)) for c, pol in conds)
         v = stores[0].value
         env_first = isinstance(v, ast.BoolOp) and isinstance(v.op, ast.Or) and "DEEP_APP_ROOT" in norm(v.values[0]) and "inspect.stack()" in norm(v.values[-1])
+        if not env_first and isinstance(v, ast.Name):
+            # unfolded form: x = getenv(...); if not x: x = <derived>; config['APP_ROOT'] = x
+            binds = [b for k, b in t.local_bindings(st, v.id) if k == "assign" and b[1] is not None]
+            envb = [b for b in binds if "DEEP_APP_ROOT" in norm(b[1])]
+            derb = [b for b in binds if "inspect.stack()" in ctx.expand.expand(b[1], st)[0]]
+            if len(binds) == 2 and len(envb) == 1 and len(derb) == 1:
+                dconds = [(norm(c), pol) for c, pol in paths.conditions(p, derb[0][0], st)]
+                env_first = (("not " + v.id, True) in dconds or (v.id, False) in dconds or ("%s is None" % v.id, True) in dconds) and \
+                    not any(v.id in norm(c) for c, pol in paths.conditions(p, envb[0][0], st))
         okr = absent and env_first
     if okr:
         res.ok("C19.ROOT", {"APP_ROOT": norm(stores[0].value)[:100]})
